@@ -86,6 +86,15 @@ class Ob(_APO):
         return ['Ob', _c(self.k), _c(self._w)]
 
 
+class Oc(_APO):
+    """Stores a set (only used by the hash-seed sub-campaign of C02)."""
+    def __init__(self, tags):
+        self.tags = set(tags)
+
+    def tcv_canon(self):
+        return ['Oc', sorted(self.tags)]
+
+
 class MemValue(_tc.InMemoryData):
     pass
 
@@ -279,7 +288,8 @@ def node_tasks(program, node):
     if how == 'wild':
         return [f'{mp}.*'], []
     if how == 'list':
-        return [f'{mp}.{t["cls"]}' for t in concrete], []
+        names = [f'{mp}.{t["cls"]}' for t in concrete]
+        return (names[::-1] if node.get('tasks_reversed') else names), []
     if how == 'list+excl':
         return [f'{mp}.*'], [f'{mp}.{c}' for c in node.get('excluded', [])]
     if how == 'explicit':
